@@ -4,6 +4,7 @@ import (
 	"bytes"
 	"fmt"
 	"hash/fnv"
+	"sync/atomic"
 	"sort"
 	"sync"
 	"testing"
@@ -14,6 +15,7 @@ import (
 
 	"verifharness/ev"
 	"verifharness/lib"
+	"verifharness/memnet"
 	"verifharness/peer"
 	"verifharness/sctpmem"
 )
@@ -153,6 +155,8 @@ func runC19(c *ev.Case, ctx *lib.Ctx, cc *c19Case, merge []c19Chunk, stepwise bo
 	deferred := (len(merge)+len(cc.streams))%3 == 0
 	var pending []*diam.Message
 	var pconn diam.Conn
+	resumedParts, resumedAt := 0, 0
+	var resumedWhole []byte
 	sig := func(op string) ev.Sig { return ev.Sig{"op": op, "stepwise": stepwise, "streams": len(cc.streams)} }
 	assoc := sctpmem.New()
 	msc := diam.VerifNewSCTPConn(assoc)
@@ -246,6 +250,36 @@ func runC19(c *ev.Case, ctx *lib.Ctx, cc *c19Case, merge []c19Chunk, stepwise bo
 		mu.Lock()
 		pm := pending
 		mu.Unlock()
+		// the first late answer meets a transport that accepts 10 bytes and reports a
+		// temporary error; it is resumed (WriteToWithRetry) and every part of it must
+		// go to the stream of its request
+		if len(pm) > 0 {
+			nBefore := len(assoc.Writes())
+			var failedOnce atomic.Bool
+			assoc.WriteScript = func(seq int, b []byte) (int, error) {
+				if failedOnce.CompareAndSwap(false, true) && len(b) > 10 {
+					return 10, &memnet.TempError{Msg: "EAGAIN"}
+				}
+				return len(b), nil
+			}
+			first := pm[0]
+			pm = pm[1:]
+			if _, err := first.Answer(2001).WriteToWithRetry(pconn, 2); err != nil {
+				c.Fail(sig("reply-retry"), nil, nil, "WriteToWithRetry of a late answer: %v", err)
+				return false
+			}
+			assoc.WriteScript = nil
+			parts := assoc.Writes()[nBefore:]
+			var whole []byte
+			for _, w := range parts {
+				if uint32(w.Stream) != first.Header.HopByHopID>>16 {
+					c.Fail(sig("reply-stream"), nil, nil, "a part of the resumed answer to message %#x (received on stream %d) was written to stream %d; %s", first.Header.HopByHopID, first.Header.HopByHopID>>16, w.Stream, describe())
+					return false
+				}
+				whole = append(whole, w.Data...)
+			}
+			resumedParts, resumedWhole, resumedAt = len(parts), whole, nBefore
+		}
 		// answers written later, in reverse order, by several goroutines at once
 		const G = 4
 		var wg sync.WaitGroup
@@ -297,6 +331,11 @@ func runC19(c *ev.Case, ctx *lib.Ctx, cc *c19Case, merge []c19Chunk, stepwise bo
 	if ok {
 		// replies: one SCTPWrite per request, on the request's stream
 		ws := assoc.Writes()
+		if resumedParts > 0 {
+			merged := append([]sctpmem.WriteRec{}, ws[:resumedAt]...)
+			merged = append(merged, sctpmem.WriteRec{Stream: ws[resumedAt].Stream, PPID: ws[resumedAt].PPID, Data: resumedWhole})
+			ws = append(merged, ws[resumedAt+resumedParts:]...)
+		}
 		seen := map[uint32]int{}
 		for _, w := range ws {
 			msgs, rest := peer.SplitMessages(w.Data)
